@@ -3,8 +3,8 @@
      tokenToValue, Object.Sort, the MarshalJSON methods, encodeString over the generated safeSet
      table, Float.MarshalJSON's post-processing of strconv.AppendFloat(f,'E',-1,64).
 
-   The model is parametrised by `cfg`: four switches, one per defect of the unfixed tree
-   (DESIGN.md section 8 #4-#7).  `cfg_today` is the code as it stands in /repo; `cfg_fixed`
+   The model is parametrised by `cfg`: five switches, one per repairable defect of the unfixed
+   tree (DESIGN.md section 8 #4-#7, and invalid UTF-8 hidden in the name of a null member).  `cfg_today` is the code as it stands in /repo; `cfg_fixed`
    is the code after the patches fixes/C07-*.diff.  `canon` (the function the theorems of
    Props/C07.v speak about) is `canon_at cfg_fixed`; `canon_today` is `canon_at cfg_today` and
    is the subject of the `_refuted` theorems.  Model only. *)
@@ -19,10 +19,11 @@ Record cfg := mkCfg {
   fix_comma : bool;     (* Object.MarshalJSON: comma only between members actually written *)
   fix_negfloat : bool;  (* Float.MarshalJSON: skip the sign when looking for the decimal point *)
   fix_eof : bool;       (* EOF inside a value is an error; nothing may follow the value *)
-  fix_range : bool      (* a number literal outside float64 is an error, not null *)
+  fix_range : bool;     (* a number literal outside float64 is an error, not null *)
+  fix_nullkey : bool    (* Attribute.MarshalJSON encodes (validates) the name before skipping a null member *)
 }.
-Definition cfg_today : cfg := mkCfg false false false false.
-Definition cfg_fixed : cfg := mkCfg true true true true.
+Definition cfg_today : cfg := mkCfg false false false false false.
+Definition cfg_fixed : cfg := mkCfg true true true true true.
 
 (* ---------------------------------------------------------------------------------------- *)
 (* parsing: the token handlers                                                                *)
@@ -228,12 +229,14 @@ Fixpoint marshal (v : jv) : result bytes :=
              match m with
              | [] => Ok []
              | (k, x) :: r =>
-               if is_null x then go r false written     (* Attribute.MarshalJSON: nil, nil *)
+               if is_null x && negb (fix_nullkey c) then go r false written  (* Attribute.MarshalJSON: nil, nil *)
                else
-                 bind (encode_string k) (fun kb => bind (marshal x) (fun a =>
-                   bind (go r false true) (fun b =>
-                     Ok ((if (if fix_comma c then written else negb first) then comma else [])
-                         ++ kb ++ ch 58 :: a ++ b))))
+                 bind (encode_string k) (fun kb =>
+                   if is_null x then go r false written
+                   else bind (marshal x) (fun a =>
+                     bind (go r false true) (fun b =>
+                       Ok ((if (if fix_comma c then written else negb first) then comma else [])
+                           ++ kb ++ ch 58 :: a ++ b))))
              end) m true false)
          (fun body => Ok (ch 123 :: body ++ [ch 125]))
   end.
